@@ -7,12 +7,82 @@ from contracts import prims
 SHIM = os.path.join(VERIF, 'shims', 'c13_prims.c')
 
 
+NATIVE = r"""
+// the real mjc_SphereCylinder on one sphere (geom 0) and one cylinder (geom 1); returns the number of contacts, *dist = reported gap
+int vf_sphere_cylinder(const double* xpos, const double* xmat, const double* size, double margin, double* dist) {
+  mjModel m; mjData d; memset(&m, 0, sizeof m); memset(&d, 0, sizeof d);
+  m.ngeom = 2; m.geom_size = (mjtNum*)size; d.geom_xpos = (mjtNum*)xpos; d.geom_xmat = (mjtNum*)xmat;
+  mjPreContact con[4]; memset(con, 0, sizeof con);
+  int n = -1;
+  VF_TRY({ n = mjc_SphereCylinder(&m, &d, con, 0, 1, margin); });
+  if (vf_error_flag) return -99;
+  *dist = con[0].dist;
+  return n;
+}
+"""
+
+
+def native_contract_run(open_obligations=()):
+    """the real compiled mjc_SphereCylinder on seeded random poses against the region formulas of its contract (nearest feature of the solid
+    cylinder: cap, side, rim, or - centre inside - the nearer of cap and side).  Bounded; it is also the fallback that turns an `unknown`
+    nonlinear obligation into a replayed violation."""
+    import ctypes, math, random
+    from vlib import native
+    lib, d = native.build_so('c13', ['src/engine/engine_util_blas.c', 'src/engine/engine_util_spatial.c', 'src/engine/engine_collision_primitive.c'], NATIVE)
+    try:
+        rnd = random.Random(int(os.environ.get('VERIF_SEED', '0') or 0))
+        D = ctypes.c_double
+        runs = 0
+        for trial in range(4000):
+            # random orthonormal frame for the cylinder (Gram-Schmidt), identity for the sphere
+            a = [rnd.gauss(0, 1) for _ in range(3)]; na = math.sqrt(sum(x * x for x in a)); a = [x / na for x in a]
+            b = [rnd.gauss(0, 1) for _ in range(3)]; dab = sum(x * y for x, y in zip(a, b)); b = [y - dab * x for x, y in zip(a, b)]
+            nb = math.sqrt(sum(x * x for x in b)); b = [x / nb for x in b]
+            c = [a[1] * b[2] - a[2] * b[1], a[2] * b[0] - a[0] * b[2], a[0] * b[1] - a[1] * b[0]]
+            # columns b, c, a  (third column = axis)
+            mat2 = [b[0], c[0], a[0], b[1], c[1], a[1], b[2], c[2], a[2]]
+            R, H, rs = rnd.choice([0.2, 0.5, 1.0]), rnd.choice([0.1, 0.5, 1.5]), rnd.choice([0.05, 0.1, 0.4])
+            # sphere centre: chosen per region in cylinder coordinates (x along the axis, p radial), including the rim ring [R, R + rs)
+            x = rnd.choice([-1, 1]) * rnd.choice([rnd.uniform(0, H), rnd.uniform(H, H + 2 * rs), H + rs / 2])
+            pr = rnd.choice([rnd.uniform(0.01, R), rnd.uniform(R, R + 2 * rs), R + rs / 2])
+            pos2 = [rnd.uniform(-1, 1) for _ in range(3)]
+            pos1 = [pos2[k] + x * a[k] + pr * b[k] for k in range(3)]
+            margin = rnd.choice([0.0, 0.01, 0.2])
+            xpos = (D * 6)(*(pos1 + pos2)); xmat = (D * 18)(*([1, 0, 0, 0, 1, 0, 0, 0, 1] + mat2)); size = (D * 6)(rs, 0, 0, R, H, 0)
+            dist = D(0)
+            n = lib.vf_sphere_cylinder(xpos, xmat, size, D(margin), ctypes.byref(dist))
+            runs += 1
+            ax, p = abs(x), pr
+            if ax < H and p < R:
+                want = (ax - H - rs) if (H - ax) < (R - p) else (p - R - rs)
+            elif ax < H:
+                want = p - R - rs
+            elif p < R:
+                want = ax - H - rs
+            else:
+                want = math.sqrt((ax - H) ** 2 + (p - R) ** 2) - rs
+            if abs(want - margin) < 1e-7 or abs(ax - H) < 1e-9 or abs(p - R) < 1e-9:
+                continue        # on a decision boundary: rounding decides
+            wn = 1 if want <= margin else 0
+            if n != wn or (n == 1 and abs(dist.value - want) > 1e-7):
+                return {'reproduced': True, 'name': 'mjc_SphereCylinder', 'input': {'sphere_pos': pos1, 'sphere_radius': rs, 'cylinder_pos': pos2, 'cylinder_mat': mat2,
+                                                                                   'cylinder_radius': R, 'cylinder_halfheight': H, 'margin': margin,
+                                                                                   'axial_coordinate': x, 'radial_distance': pr},
+                        'observed': {'ncon': n, 'dist': dist.value}, 'expected': {'ncon': wn, 'dist': want},
+                        'violated_clause': 'the contact reports the gap to the nearest feature of the cylinder (cap / side / rim)'}
+        return {'reproduced': False, 'cases_run': runs}
+    finally:
+        native.cleanup(d)
+
+
 def main():
     chk = Check('C13')
-    chk.timeout = 40 if chk.tier == 'quick' else 300
+    chk.native_fallback = native_contract_run
+    chk.timeout = 90 if chk.tier == 'quick' else 300
     for fn in ('mjraw_PlaneSphere', 'mjraw_SphereSphere', 'mjraw_SphereCapsule', 'c13_frame'):
         chk.unit('verif:shims/c13_prims.c', fn, prims.CONTRACTS, 'math', 'real', abspath=SHIM, check_arith=False)
     chk.unit('verif:shims/c13_prims.c', 'mjc_PlaneCapsule', prims.plane_capsule_contracts(), 'math', 'real', abspath=SHIM, check_arith=False)
+    chk.unit('verif:shims/c13_prims.c', 'mjc_SphereCylinder', prims.sphere_cylinder_contracts(), 'math', 'real', abspath=SHIM, check_arith=False)
     for fn in ('mjc_PlaneSphere', 'mjc_SphereSphere'):      # the wrappers hand the raw colliders the arrays of the right geoms
         chk.unit('verif:shims/c13_prims.c', fn, prims.wrapper_contracts(), 'math', 'real', abspath=SHIM, check_arith=False)
     for fn in ('getMargin', 'getGap'):
@@ -21,7 +91,16 @@ def main():
     from vlib.cast import REPO
     for f in ('src/engine/engine_collision_primitive.c', 'src/engine/engine_util_spatial.c', 'src/engine/engine_util_blas.c'):
         chk.sources[f] = hashlib.sha256(open(os.path.join(REPO, f), 'rb').read()).hexdigest()
-    chk.out_of_reach += ['capsule-capsule, plane-cylinder / box / ellipsoid colliders (sphere-capsule and plane-capsule are under contract), mj_geomDistance, mj_setContact, convex (GJK/EPA) pairs']
+    import time
+    from vlib.report import run_isolated
+    t0 = time.time()
+    r = run_isolated(lambda n, m, o: native_contract_run([]), '', None, None, timeout=600, crash_is_failure=True)
+    chk.bounded.append({'what': 'real compiled mjc_SphereCylinder vs the nearest-feature formulas of its contract', 'bound': '4000 seeded random poses (all four regions, incl. the rim ring), tolerance 1e-7',
+                        'result': r, 'wall_s': round(time.time() - t0, 1), 'counted_as_proved': False})
+    if r and r.get('reproduced'):
+        chk.native_fallback = None
+        chk.external('bounded/native_contract_run', False, 'native(bounded)', time.time() - t0, detail=str(r)[:300], model=r)
+    chk.out_of_reach += ['capsule-capsule, plane-cylinder / box / ellipsoid colliders (sphere-capsule, plane-capsule and sphere-cylinder are under contract; for sphere-cylinder the contact normal and position are not stated), mj_geomDistance, mj_setContact, convex (GJK/EPA) pairs']
     chk.assumptions |= {'machine doubles treated as mathematical reals', 'mjc_PlaneCapsule uses mjraw_PlaneSphere by its proved contract plus the frame fact that it stores only through the contact pointer it is given', 'plane frame matrix has a unit third column',
                         'mju_makeFrame is proved for frames built from the normal alone (tangent of squared length < 0.25, as every '
                         'primitive collider leaves it); the supplied-tangent path is not claimed'}
